@@ -761,17 +761,34 @@ func newIndex(vals []reflect.Value, c ReflectListComparator) *index {
 	return index
 }
 
+// order of the keys of a map-backed list: by the value behind an interface{} key, numbers by
+// value, false before true, anything else by its text
 func reflectCompare(a, b reflect.Value) bool {
-	if a.CanInt() {
-		return a.Int() < b.Int()
+	for a.IsValid() && a.Kind() == reflect.Interface {
+		a = a.Elem()
 	}
-	if a.CanFloat() {
-		return a.Float() < b.Float()
+	for b.IsValid() && b.Kind() == reflect.Interface {
+		b = b.Elem()
 	}
-	if a.Kind() == reflect.String {
-		return a.String() < b.String()
+	if !a.IsValid() || !b.IsValid() {
+		return !a.IsValid() && b.IsValid()
 	}
-	panic(fmt.Sprintf("cannot compare %s. you must set comparator or implement your own list handler", a.Type()))
+	if a.Kind() == b.Kind() {
+		switch {
+		case a.CanInt():
+			return a.Int() < b.Int()
+		case a.CanUint():
+			return a.Uint() < b.Uint()
+		case a.CanFloat():
+			return a.Float() < b.Float()
+		case a.Kind() == reflect.String:
+			return a.String() < b.String()
+		case a.Kind() == reflect.Bool:
+			return !a.Bool() && b.Bool()
+		}
+	}
+	// keys of different kinds (a union) and kinds without an order of their own
+	return fmt.Sprint(a.Interface()) < fmt.Sprint(b.Interface())
 }
 
 func (ndx *index) Len() int {
